@@ -137,4 +137,38 @@ theorem findDup_some (names : List String) (h : ¬ names.Nodup) : (findDup names
     · have : ¬ rest.Nodup := fun hn => h (List.nodup_cons.mpr ⟨hc, hn⟩)
       simp [hc, ih this]
 
+/-! ## the string codec laws, proved (Std's `Nat.repr` / `String.toNat?` / `Int.repr` / `String.toInt?` lemmas) -/
+
+theorem takeWhile_digits (l rest : List Char) (p : Char → Bool) (hl : ∀ c ∈ l, p c = true) (x : Char) (hx : p x = false) :
+    (l ++ x :: rest).takeWhile p = l ∧ (l ++ x :: rest).dropWhile p = x :: rest := by
+  induction l with
+  | nil => simp [List.takeWhile, List.dropWhile, hx]
+  | cons a l ih =>
+    have ha := hl a (by simp)
+    have := ih (fun c hc => hl c (by simp [hc]))
+    simp [List.takeWhile, List.dropWhile, ha, this]
+
+/-- decimal integers: `parseInt? ∘ showInt = some` -/
+theorem int_law (v : Int) : parseInt? (showInt v) = some v := by
+  unfold parseInt? showInt
+  exact Int.toInt?_repr v
+
+/-- durations written in nanoseconds: `parseDur? ∘ showDur = some` -/
+theorem dur_law (ns : Int) (h : 0 ≤ ns) : parseDur? (showDur ns) = some ns := by
+  unfold parseDur? showDur
+  have hl : (ns.toNat.repr ++ "ns").toList = Nat.toDigits 10 ns.toNat ++ 'n' :: ['s'] := by
+    rw [String.toList_append, Nat.toList_repr]; rfl
+  have hd := takeWhile_digits (Nat.toDigits 10 ns.toNat) ['s'] Char.isDigit
+    (fun c hc => Nat.isDigit_of_mem_toDigits (by omega) (by omega) hc) 'n' (by decide)
+  rw [hl, hd.1, hd.2]
+  have e1 : String.ofList (Nat.toDigits 10 ns.toNat) = Nat.repr ns.toNat := rfl
+  have e2 : String.ofList ['n', 's'] = "ns" := by decide
+  simp only [e1, e2, parseNat?, Nat.toNat?_repr]
+  simp
+  omega
+
+/-- the codec laws hold: the round-trip theorems of C15 have no assumption left -/
+theorem codecLaws : CodecLaws := ⟨int_law, dur_law⟩
+
+
 end L4.Config
